@@ -12,6 +12,9 @@ CLAIMED = {
  "C03": ("exploration", "differential property-based testing against an independent reference encoder; exhaustive numeric tables",
          "Library bytes are compared byte-for-byte with an independently written MQTT 3.1.1/5.0 encoder over random abstract packets; reference bytes are parsed by the library and read back through public accessors; all property ids, packet types, fixed-header bytes and reason-code tables are enumerated completely.",
          "Trusts harness/src/refcodec.rs as a faithful transcription of the OASIS text (golden vectors in cargo test; any disagreement on the unchanged tree is investigated first).", "DESIGN.md §3 C03"),
+ "C04": ("exploration", "exhaustive short-input enumeration + mutation-based and random property testing of every parser (proptest); libFuzzer target in thorough",
+         "Every byte string of length <=2 (thorough <=3) is fed to each of the 102 packet-parser instantiations and 6 sub-parsers (complete enumeration); 300k (thorough 5M) structured mutations of valid reference encodings and 200k (3M) random strings follow. On acceptance the packet must be self-consistent (size, re-parse, UTF-8) and rebuildable through the public builder of the same kind.",
+         "'Structural rules the builders enforce' is decided by rebuilding the accepted packet from its accessor values through the public builder; nothing is asserted about error values or trailing bytes. VariableByteInteger::decode_stream alone is allowed to canonicalise.", "DESIGN.md §3 C04"),
  "C20": ("exploration", "model-based testing against a set-of-free-integers model: exhaustive small-scope enumeration plus proptest sequences",
          "Every op sequence up to depth 6 (thorough 7) over every range of width <=4 at the low end, at 1 and at the type maximum for u8/u16/u32 is enumerated completely (iterative deepening, Clone-shared prefixes) and compared step by step with a plain set model, including the internal interval representation; random sequences of <=60 ops cover extreme ranges ([0,0],[max,max],[0,max],[1,65535],[1,u32::MAX]).",
          "Out-of-range deallocate is excluded (documented assert). The interval representation is read through the verif-hooks accessor verif_intervals().", "DESIGN.md §3 C20"),
